@@ -43,10 +43,13 @@ class DataLoader(torch.utils.data.DataLoader):
         else:
             self.tensor_frame: TensorFrame = dataset
 
-        if len(dataset) == 0 and kwargs.get('shuffle'):
+        if len(dataset) == 0:
             # `torch.utils.data.RandomSampler` rejects empty data sources;
             # there is nothing to shuffle, so an epoch yields no batches.
-            kwargs['shuffle'] = False
+            if kwargs.get('shuffle'):
+                kwargs['shuffle'] = False
+            elif len(args) >= 2 and args[1]:  # positional `shuffle`
+                args = (args[0], False) + tuple(args[2:])
 
         super().__init__(
             range(len(dataset)),
